@@ -109,21 +109,33 @@ def assignNsClusters (nsPackage : Option Str → Str) (cs : List ClassInfo)
     (comps : List (List Str)) : Except PkgErr Assignments :=
   assignGroups (nsClusterTarget nsPackage) cs comps
 
-/-- `group_by_strong_components`.  The component generator is lazy: a component is
-sorted and assigned as soon as it is yielded, so an error raised while handling a
-yielded component precedes a later `KeyError` of the depth-first search. -/
-def groupByStrongComponents (package : Str) (cs : List ClassInfo) (vorder : List Str) :
-    Except PkgErr (List (Str × Option (Str × Str))) :=
-  let st := sccRun (classEdges cs) vorder
+/-- `group_by_strong_components` with the dict `edges` of `strongly_connected_classes`
+given explicitly (its order and the order of every `list(set(deps))` are arbitrary).
+The component generator is lazy: a component is sorted and assigned as soon as it
+is yielded, so an error raised while handling a yielded component precedes a later
+`KeyError` of the depth-first search. -/
+def groupByStrongComponentsG (package : Str) (cs : List ClassInfo) (edges : Graph)
+    (vorder : List Str) : Except PkgErr (List (Str × Option (Str × Str))) :=
+  let st := sccRun edges vorder
   match assignClusters package cs st.out with
   | .error e => .error e
   | .ok acc => if st.err then .error PkgErr.keyError else .ok (finalAssignment cs acc)
 
-def groupByNamespaceClusters (nsPackage : Option Str → Str) (cs : List ClassInfo)
+/-- `group_by_strong_components` -/
+def groupByStrongComponents (package : Str) (cs : List ClassInfo) (vorder : List Str) :
+    Except PkgErr (List (Str × Option (Str × Str))) :=
+  groupByStrongComponentsG package cs (classEdges cs) vorder
+
+def groupByNamespaceClustersG (nsPackage : Option Str → Str) (cs : List ClassInfo) (edges : Graph)
     (vorder : List Str) : Except PkgErr (List (Str × Option (Str × Str))) :=
-  let st := sccRun (classEdges cs) vorder
+  let st := sccRun edges vorder
   match assignNsClusters nsPackage cs st.out with
   | .error e => .error e
   | .ok acc => if st.err then .error PkgErr.keyError else .ok (finalAssignment cs acc)
+
+/-- `group_by_namespace_clusters` -/
+def groupByNamespaceClusters (nsPackage : Option Str → Str) (cs : List ClassInfo)
+    (vorder : List Str) : Except PkgErr (List (Str × Option (Str × Str))) :=
+  groupByNamespaceClustersG nsPackage cs (classEdges cs) vorder
 
 end Xs.Codegen
